@@ -934,9 +934,8 @@ class SimpleShape(DefinedShape):
             return False
         if areaA > 0:
             return True
-        # If simple shape is not a square
-        # may happens error here
-        return True
+        # Both are unbounded: A in B <=> (complement of B) in (complement of A)
+        return (~other).__contains_simple(~self)
 
 
 class ConnectedShape(DefinedShape):
